@@ -197,6 +197,41 @@ def r11_slaves_lists_every_hosted_unit(ck, cx, rule='R11'):
     ck.floor(rule, n, 1, 'return paths of slaves()')
 
 
+
+def r12_do_exception_contract(ck, cx, rule='R12'):
+    """Every front-end answers an absent unit with request.doException(GatewayNoResponse) and a datastore fault with
+    request.doException(SlaveFailure), whatever class the decoder produced (IllegalFunctionRequest included).  The answer carries the
+    code the front-end chose only if the doException that is resolved for the class builds ExceptionResponse(function code, <its
+    argument>)."""
+    from ..msgtables import registered_classes
+    ck.rule(rule, 'for every request class the decoder can produce, doException(code) returns ExceptionResponse(self.function_code, code): no override replaces the code it is given')
+    req, _ = registered_classes(cx)
+    n = 0
+    seen = set()
+    for k in req + [cx.idx.cls('pymodbus.pdu.IllegalFunctionRequest')]:
+        fn = cx.idx.find_method(k, 'doException')
+        if fn is None:
+            ck.ob(rule, k.qn, 'the class has doException', False, detail='no-doException', loc=k.loc)
+            continue
+        if fn.qn in seen:
+            continue
+        seen.add(fn.qn)
+        ck.saw('functions', fn.qn)
+        par = fn.params[1] if len(fn.params) > 1 else None
+        for p in cx.enum(fn, k, max_depth=1):
+            if p.exit and p.exit[0] == 'exc':
+                continue
+            annotate(p, heap=False)
+            r = ret_expr(p)
+            n += 1
+            ok = isinstance(r, ast.Call) and callee_name(r) == 'ExceptionResponse' and len(r.args) >= 2 and U(r.args[0]) == 'self.function_code' \
+                and isinstance(r.args[1], ast.Name) and r.args[1].id == par
+            ck.ob(rule, fn.qn, 'doException(code) returns ExceptionResponse(self.function_code, code)', ok, detail='doException-ignores-its-code', loc=cx.floc(fn),
+                  message='%s returns `%s`: the exception code the front-end asked for (0x0B for an absent unit, 0x04 for a datastore fault) is replaced, '
+                          'so a request for a unit that is not hosted is answered as if the unit existed' % (fn.qn, U(r)[:70] if r is not None else None))
+    ck.floor(rule, n, 1, 'doException implementations')
+
+
 def run(ck, tier):
     cx = Ctx()
     ck.guard(r1_unit_filter, ck, cx)
@@ -221,4 +256,5 @@ def run(ck, tier):
     from .c17 import r8_handler_bound_to_its_server
     ck.guard(r8_handler_bound_to_its_server, ck, cx, 'R10')
     ck.guard(r11_slaves_lists_every_hosted_unit, ck, cx)
+    ck.guard(r12_do_exception_contract, ck, cx)
     return cx.idx
